@@ -46,7 +46,7 @@ def run(ctx):
         judge(events, meta, res, verdict)
         return verdict.finish()
     thorough = ctx.tier == "thorough"
-    nh, nops = (600, 80) if thorough else (60, 50)
+    nh, nops = (600, 80) if thorough else (240, 50)
     events, meta, res = U.run_histories(wd, ctx.seed + 17, nh, nops, MIX, "c17")
     failed = judge(events, meta, res, verdict)
     mine = [e for e in events if e["cls"] in MINE]
